@@ -167,3 +167,146 @@ func TestC18StoreAccount(t *testing.T) {
 	defer r.Flush()
 	kit.CheckRun(t, r, c18wGen, c18wExec(r))
 }
+
+// ---------------------------------------------------------------- other compositions of the store mappers
+//
+// store.Messages.DeleteList = adapter MessageDeleteList (messages + deletion log), TopicUpdate (the
+// topic's delete-transaction number), SubsUpdate (the subscriptions' delete numbers);
+// store.Topics.Create = adapter TopicCreate + TopicShare (the owner's subscription).
+// Same oracle as above: a failed adapter call is reported to the caller, and then the store holds
+// what it held before; without a failure the operation takes full effect.
+
+type c18oCase struct {
+	Op     string   `json:"op"` // dellist | newtopic
+	Hard   bool     `json:"hard,omitempty"`
+	Msgs   int      `json:"msgs"`
+	Ranges [][2]int `json:"ranges,omitempty"`
+	Nth    int      `json:"nth"`
+	Method string   `json:"method,omitempty"`
+}
+
+func c18oGen(rt *rapid.T) c18oCase {
+	c := c18oCase{Op: gPick(rt, []string{"dellist", "dellist", "newtopic"}, "op"), Hard: gPct(rt, 50), Msgs: gInt(rt, 2, 6, "msgs")}
+	for i, n := 0, gInt(rt, 1, 3, "nr"); i < n; i++ {
+		lo := gInt(rt, 1, c.Msgs, "lo")
+		c.Ranges = append(c.Ranges, [2]int{lo, gPick(rt, []int{0, lo + 1, lo + 2}, "hi")})
+	}
+	switch x := gInt(rt, 0, 9, "how"); {
+	case x < 2:
+	case x < 6:
+		c.Nth = gInt(rt, 1, 3, "nth")
+	default:
+		c.Nth = 1
+		if c.Op == "dellist" {
+			c.Method = gPick(rt, []string{"MessageDeleteList", "TopicUpdate", "SubsUpdate", "SubsUpdate"}, "method")
+		} else {
+			c.Method = gPick(rt, []string{"TopicCreate", "TopicShare"}, "method")
+		}
+	}
+	return c
+}
+
+func c18oDigest() string {
+	s := mem.A.Snapshot()
+	var rows []string
+	for _, t := range s.Topics {
+		rows = append(rows, fmt.Sprintf("topic %s seq=%d del=%d owner=%s", t.Name, t.SeqId, t.DelId, t.Owner.UserId()))
+	}
+	for _, r := range s.Subs {
+		rows = append(rows, fmt.Sprintf("sub %s %s del=%d deleted=%v", r.Topic, r.User.UserId(), r.DelId, r.DeletedAt != nil))
+	}
+	for _, m := range s.Msgs {
+		rows = append(rows, fmt.Sprintf("msg %s#%d delid=%d content=%s", m.Topic, m.SeqId, m.DelId, string(m.Content)))
+	}
+	for _, d := range s.Dellog {
+		rows = append(rows, fmt.Sprintf("dellog %s #%d for=%s %d..%d", d.Topic, d.DelId, d.DeletedFor.UserId(), d.Low, d.Hi))
+	}
+	sort.Strings(rows)
+	b, _ := json.Marshal(rows)
+	return string(b)
+}
+
+func c18oExec(r *kit.Run) func(c18oCase) kit.Outcome {
+	return func(c c18oCase) kit.Outcome {
+		r.WAL(c)
+		c18wOnce.Do(func() {
+			wProcessInit()
+			if err := store.Store.Open(1, json.RawMessage(wStoreCfg)); err != nil {
+				panic("store open: " + err.Error())
+			}
+		})
+		mem.A.Reset()
+		must := func(err error) {
+			if err != nil {
+				panic("c18o set-up: " + err.Error())
+			}
+		}
+		var uids []types.Uid
+		for i := 0; i < 2; i++ {
+			u := &types.User{}
+			_, err := store.Users.Create(u, nil)
+			must(err)
+			uids = append(uids, u.Uid())
+		}
+		name := "grpC18oStoreOps"
+		if c.Op == "dellist" {
+			must(store.Topics.Create(&types.Topic{ObjHeader: types.ObjHeader{Id: name}, Access: types.DefaultAccess{Auth: types.ModeCPublic}}, uids[0], nil))
+			must(store.Subs.Create(&types.Subscription{User: uids[1].String(), Topic: name, ModeWant: types.ModeCPublic, ModeGiven: types.ModeCPublic}))
+			for i := 1; i <= c.Msgs; i++ {
+				m := &types.Message{SeqId: i, Topic: name, From: uids[0].String(), Content: fmt.Sprintf("m%d", i)}
+				m.InitTimes()
+				err, _ := store.Messages.Save(m, nil, false)
+				must(err)
+			}
+		}
+		before := c18oDigest()
+		var rs []types.Range
+		for _, x := range c.Ranges {
+			rs = append(rs, types.Range{Low: x[0], Hi: x[1]})
+		}
+		sort.Sort(types.RangeSorter(rs))
+		rs = types.RangeSorter(rs).Normalize()
+		mem.A.Arm(mem.Plan{FailNth: c.Nth, FailMethod: c.Method})
+		var err error
+		op := ""
+		switch c.Op {
+		case "dellist":
+			op = "Messages.DeleteList"
+			forUser := uids[1]
+			if c.Hard {
+				forUser = types.ZeroUid
+			}
+			err = store.Messages.DeleteList(name, 1, forUser, rs)
+		default:
+			op = "Topics.Create"
+			err = store.Topics.Create(&types.Topic{ObjHeader: types.ObjHeader{Id: name}, Access: types.DefaultAccess{Auth: types.ModeCPublic}}, uids[0], map[string]any{"note": "x"})
+		}
+		fired, failedMethod := mem.A.Fired, mem.A.FiredMethod
+		mem.A.Disarm()
+		after := c18oDigest()
+		o := kit.Outcome{NonTrivial: fired, Classes: []string{op}}
+		switch {
+		case fired:
+			o.Classes = append(o.Classes, "a-call-failed")
+			if err == nil {
+				o.Viol = kit.V("swallowed-error:"+op+":"+failedMethod, "adapter call %s failed inside store.%s, which returned no error", failedMethod, op)
+			} else if after != before {
+				o.Viol = kit.V("partial-write:"+op+":"+failedMethod, "adapter call %s failed inside store.%s (error reported: %v) after earlier calls of the same operation had been written: the store changed from %s to %s", failedMethod, op, err, before, after)
+			}
+		default:
+			o.Classes = append(o.Classes, "no-failure")
+			if err != nil {
+				o.Viol = kit.V("failed-without-fault:"+op, "store.%s failed with %v although no adapter call failed", op, err)
+			} else if after == before {
+				o.Viol = kit.V("no-effect:"+op, "store.%s reported success and changed nothing", op)
+			}
+		}
+		return o
+	}
+}
+
+func TestC18StoreOps(t *testing.T) {
+	r := kit.Begin("C18", "TestC18StoreOps")
+	defer r.Flush()
+	kit.CheckRun(t, r, c18oGen, c18oExec(r))
+}
